@@ -27,10 +27,12 @@ def in_func(repo, qualname, old, new, count=1):
     m = fi.module
     a, b = _func_span(fi)
     lines = m.lines
-    seg = '\n'.join(lines[a - 1:b])
+    seg = '\n'.join(lines[a - 1:b]) + '\n'
     if seg.count(old) < 1 or (count is not None and seg.count(old) != count):
         raise NotApplicable('%r occurs %d times in %s (wanted %s)' % (old, seg.count(old), qualname, count))
     seg2 = seg.replace(old, new)
+    if seg2.endswith('\n'):
+        seg2 = seg2[:-1]
     text = '\n'.join(lines[:a - 1] + seg2.split('\n') + lines[b:])
     ast.parse(text)
     return {m.relpath: text}
